@@ -99,6 +99,23 @@ func (e *Exec) sideAxioms() []*Term {
 			}
 		}
 	}
+	if e.cfg["fpmono"] != "" && e.fpRelaxed {
+		// IEEE rounding is monotone: x <= y implies fl(x) <= fl(y)
+		type pr struct{ x, r *Term }
+		var ps []pr
+		for id, r := range roundedCache {
+			ps = append(ps, pr{termList[id], r})
+		}
+		sort.Slice(ps, func(i, j int) bool { return ps[i].x.ID < ps[j].x.ID })
+		if len(ps) <= 40 {
+			for i := range ps {
+				for j := 0; j < i; j++ {
+					ax = append(ax, Implies(App("<=", BoolSort, ps[i].x, ps[j].x), App("<=", BoolSort, ps[i].r, ps[j].r)))
+					ax = append(ax, Implies(App("<=", BoolSort, ps[j].x, ps[i].x), App("<=", BoolSort, ps[j].r, ps[i].r)))
+				}
+			}
+		}
+	}
 	if e.conc != nil {
 		ax = append(ax, e.conc.sideConstraints()...)
 	}
